@@ -717,6 +717,33 @@ theorem T_C16_linear_additive_exact (ps : List V) (ds : List Rat) (hw : SegWitPo
     rw [max_eq_left hac, min_eq_right hac] at this
     rw [this]; congr 1; ring
 
+/-- **The length of a function curve does not depend on the order of the two parameters** — in the model, exactly, for every curve
+    function, sample count ≥ 2 and symmetric distance: `discretize(b, a, n)` is `discretize(a, b, n)` reversed (`linspace_reverse`), and a
+    reversed polyline has the same length.  (In the implementation `np.linspace(b, a)` is the reversed list up to rounding: oracle, 1e-9.) -/
+theorem T_C16_order_function (d : α → α → Rat) (hsym : ∀ x y, d x y = d y x) (f : Rat → α) (a b : Rat) (N : Nat) (hN : 1 ≤ N) :
+    discretizeF f b a (N + 1) = (discretizeF f a b (N + 1)).reverse ∧
+    polyLenD d (discretizeF f b a (N + 1)) = polyLenD d (discretizeF f a b (N + 1)) := by
+  have e : discretizeF f b a (N + 1) = (discretizeF f a b (N + 1)).reverse := by
+    unfold discretizeF; rw [linspace_reverse a b N hN, List.map_reverse]
+  exact ⟨e, by rw [e, polyLenD_reverse d hsym]⟩
+
+/-- … hence `AnalyticCurve.get_length(a, b) = get_length(b, a)` in the model (100 samples), whenever both are accepted -/
+theorem T_C16_order_analytic (d : α → α → Rat) (hsym : ∀ x y, d x y = d y x) (f : Rat → α) (lo hi a b : Rat) :
+    getLengthA d f lo hi (some a) (some b) = getLengthA d f lo hi (some b) (some a) := by
+  unfold getLengthA discretizeFB getParamsF
+  simp only [Option.getD_some]
+  by_cases h : lo ≤ a ∧ a ≤ hi ∧ lo ≤ b ∧ b ≤ hi
+  · have h' : lo ≤ b ∧ b ≤ hi ∧ lo ≤ a ∧ a ≤ hi := ⟨h.2.2.1, h.2.2.2, h.1, h.2.1⟩
+    rw [if_pos h, if_pos h']
+    simp only [Option.map_some]
+    congr 1
+    exact ((T_C16_order_function d hsym f b a 99 (by norm_num)).2)
+  · have h' : ¬ (lo ≤ b ∧ b ≤ hi ∧ lo ≤ a ∧ a ≤ hi) := fun h' => h ⟨h'.2.2.1, h'.2.2.2, h'.1, h'.2.1⟩
+    rw [if_neg h, if_neg h']
+
+example : discretizeF (fun t : Rat => t * t) 3 0 4 = [9, 4, 1, 0] ∧ discretizeF (fun t : Rat => t * t) 0 3 4 = [0, 1, 4, 9] := by
+  constructor <;> decide +kernel
+
 /-! ### round 6: tie to the source text (tables regenerated by `cbv/tables/c16.py` with `ast` on every run) -/
 
 open CBV.C08 (chain opsAt operandsAt cmpOp) in
